@@ -272,8 +272,12 @@ func main() {
 	need("k_route_flag_capture", "RouteFlagCapture", "fw/table/rib.go")
 	need("k_route_origin_app", "RouteOriginApp", "fw/table/rib.go")
 	need("k_max_ndn_packet_size", "MaxNDNPacketSize", "fw/defn/mtu.go")
-	need("k_lp_packet_overhead", "lpPacketOverhead", "fw/face/ndnlp-link-service.go")
-	need("k_pit_token_overhead", "pitTokenOverhead", "fw/face/ndnlp-link-service.go")
+	if _, ok := env["pitTokenOverhead"]; ok {
+		need("k_pit_token_overhead", "pitTokenOverhead", "fw/face/ndnlp-link-service.go")
+	} else {
+		// sendPacket reserves the exact size of the outgoing PIT token; the forwarder's own tokens are 6 bytes (type + length + 6)
+		w("Definition k_pit_token_overhead : N := 8.   (* no pitTokenOverhead constant: exact size of the forwarder's own 6-byte PIT token *)\n")
+	}
 	need("k_congestion_mark_overhead", "congestionMarkOverhead", "fw/face/ndnlp-link-service.go")
 	need("k_face_flag_local_fields", "FaceFlagLocalFields", "fw/face/ndnlp-link-service.go")
 	need("k_face_flag_congestion_marking", "FaceFlagCongestionMarking", "fw/face/ndnlp-link-service.go")
@@ -284,7 +288,7 @@ func main() {
 	need("k_cs_flag_enable_serve", "CsFlagEnableServe", "fw/mgmt/helpers.go")
 	// ---- computeHeaderOverhead: base + conditional terms
 	w("\n(* ---- fw/face/ndnlp-link-service.go computeHeaderOverhead: terms added to lpPacketOverhead, by option ---- *)\n")
-	var hdrFrag, hdrIfi, hdrOther int64
+	var hdrFrag, hdrIfi, hdrOther, hdrBase int64
 	foundCHO := false
 	for _, f := range faceFiles {
 		for _, d := range f.Decls {
@@ -297,9 +301,11 @@ func main() {
 				switch s := st.(type) {
 				case *ast.AssignStmt:
 					if s.Tok == token.ASSIGN && len(s.Rhs) == 1 {
-						if id, ok := s.Rhs[0].(*ast.Ident); !ok || id.Name != "lpPacketOverhead" {
-							fail("computeHeaderOverhead: base is not lpPacketOverhead")
+						v, ok := eval(s.Rhs[0], env, 0)
+						if !ok {
+							fail("computeHeaderOverhead: base overhead is not a constant expression")
 						}
+						hdrBase = v
 					}
 				case *ast.IfStmt:
 					cond := exprString(s.Cond)
@@ -333,6 +339,7 @@ func main() {
 	if !foundCHO {
 		fail("computeHeaderOverhead not found")
 	}
+	w("Definition k_lp_packet_overhead : N := %d.   (* the unconditional part *)\n", hdrBase)
 	w("Definition k_hdr_fragmentation : N := %d.\nDefinition k_hdr_incoming_face : N := %d.\n", hdrFrag, hdrIfi)
 
 	// ---- strategies
